@@ -512,7 +512,7 @@ func c13RunScheduled(sc *c13Scn, ops map[int]*c13Op, srv *core.ChildServer, sink
 	s := &c13Sched{sc: sc, ops: ops, events: make(chan schedEvent, 64), srv: srv, sink: sink, res: res, log: log,
 		kids: map[string]*schedChild{}, inst: map[string]int{}, tape: sc.Tape, iState: "running", expI: true}
 	s.model = &c13Model{sc: sc, files: map[string]string{}, open: map[string]string{}, spans: map[string]string{}, curInst: map[string]string{}, vals: map[int]float64{}, lines: map[int]string{},
-		startedAfter: map[string]int{}, inst: map[string]int{}}
+		startedAfter: map[string]int{}, inst: map[string]int{}, openTrunc: map[string]bool{}, skipFile: map[string]bool{}}
 	park := func(ev schedEvent) {
 		ev.release = make(chan struct{})
 		s.events <- ev
